@@ -12,14 +12,19 @@ type c01 struct {
 
 func newC01(w *World, m *Model) *c01 { return &c01{oracleBase: newBase("C01", w), m: m} }
 
-func obligations(s *Snapshot) (pending, earned int64) {
+func obligations(s *Snapshot) (pending, earned int64) { return obligationsIn(s, "stake") }
+
+// obligationsIn: pending fees and unwithdrawn earnings recorded in one denomination
+func obligationsIn(s *Snapshot, denom string) (pending, earned int64) {
 	for id := range s.ActiveID {
 		if r, ok := s.Reqs[id]; ok {
-			pending += stakeOf(r.ServiceFee)
+			pending += mustI64(r.ServiceFee.AmountOf(denom))
 		}
 	}
 	for _, e := range s.Earned {
-		earned += e.Amount
+		if e.Denom == denom {
+			earned += e.Amount
+		}
 	}
 	return
 }
@@ -30,6 +35,15 @@ func (o *c01) Step(r *StepRec) []Violation {
 	escrow := s.Bal[o.w.RequestAcc]
 	if escrow != pending+earned {
 		o.fail(c01Sig(r), "escrow %d != pending fees %d + earned %d after %s (ok=%v)", escrow, pending, earned, r.Action.Kind, r.OK)
+	}
+	// the same in the second coin, where one exists
+	if pp, pe := obligationsIn(s, "point"); s.BalP[o.w.RequestAcc] != pp+pe {
+		o.fail(c01Sig(r), "escrow holds %d point != pending fees %d + earned %d (point) after %s (ok=%v)", s.BalP[o.w.RequestAcc], pp, pe, r.Action.Kind, r.OK)
+	} else if pp+pe > 0 {
+		o.hit("obligations_in_second_coin")
+		if pending+earned > 0 {
+			o.hit("obligations_in_both_coins")
+		}
 	}
 	// classification
 	if r.OK {
